@@ -160,6 +160,23 @@ CLAIMED = {
              'C14). Known findings: F8 (EdgeEnergy_arr[Z][shell] for Q shells), F12 (scanner error exits leak scratch memory).',
         technique='interval abstract interpretation for bounds + resource typestate over all paths + may-leak dataflow',
     ),
+    'C02': dict(
+        category='other',
+        text='Structure of the interpolation decided statically: in splint/lininterp every interpolating path has established '
+             'x >= xa[1] exactly and x - xa[n] <= tol <= 1e-7 (interval facts), *y is written on every path, the stored value is '
+             'exactly the natural-cubic-spline interpolant (normal form), and the search loop is in the bracketing-bisection '
+             'family slot by slot (initial bracket, continue condition, midpoint, update). Each of the 11 call sites passes the '
+             'knots/values/second derivatives/count of ONE family derived from the parser, with identical indices, the 1-based '
+             'idiom, the availability guard, the frozen argument/result transform and a tested result flag; the build-time '
+             'printer emits all 35 family arrays under their own name with the family count; the Kissel low-energy extension is '
+             'taken only between edge and first knot with the slope clamped to [-1,1] on every path. Thorough tier '
+             '(translation_validation): all ~0.5 M generated knots equal the data files and are non-decreasing.',
+        design_ref='DESIGN.md section 2, C02',
+        note='Not decided: numerical value at interior points and the effect of the 1e-7 tolerance (runtime quantities). '
+             'Kissel tables are empty in this tree; the rules are data-agnostic and the Kissel data facts are vacuous until '
+             'the table is regenerated. Known finding F23: non-monotone knot in CS_Photo.dat for Z=96 (thorough tier).',
+        technique='interval facts + exact normal form of the kernel; family derivation from the parser; generated-table validation',
+    ),
 }
 
 NOT_YET = {}
